@@ -572,10 +572,10 @@ class Guard:
     is abandoned and the coverage is reported as not exhaustive."""
 
     def __init__(self, t):
-        self.t, self.hangs = t, 0
+        self.t, self.hangs, self.budget = t, 0, CASE_CPU_BUDGET_S
 
     def call(self, case, fn, *args):
-        signal.setitimer(signal.ITIMER_VIRTUAL, CASE_CPU_BUDGET_S)
+        signal.setitimer(signal.ITIMER_VIRTUAL, self.budget)
         try:
             try:
                 return fn(*args)
@@ -585,7 +585,7 @@ class Guard:
             self.hangs += 1
             self.t.add('hangs')
             self.t.bad('C06|hang:%s' % case.get('part'), case, 'terminates',
-                       'no result within %g CPU seconds' % CASE_CPU_BUDGET_S)
+                       'no result within %g CPU seconds' % self.budget)
             if self.hangs >= MAX_HANGS_PER_SHARD or _HANG_SEEN.value:
                 _HANG_SEEN.value = 1
                 self.t.add('shards_abandoned_after_hang')
@@ -720,6 +720,7 @@ def long_text(case):
 
 def shard_totality_long(arg, t, g):
     U = _u()
+    g.budget = 4 * CASE_CPU_BUDGET_S            # texts of up to a few 100 000 characters, ~20 calls per case
     for n in arg['sizes']:                      # shortest first
         for unit in arg['units']:
             for tmpl in TOTALITY_TEMPLATES:
